@@ -413,7 +413,32 @@ def rule_RV(text, log):
     return apply_edits(text, edits)
 
 
-RULES = {'R1T': rule_R1T, 'RV': rule_RV, 'R0': rule_R0, 'R1': rule_R1, 'R3': rule_R3, 'R4': rule_R4}
+F64_OPS = {'+': 'add', '-': 'sub', '*': 'mul', '/': 'div', '%': 'rem', '<': 'lt', '>': 'gt', '<=': 'le', '>=': 'ge', '==': 'eq', '!=': 'ne'}
+
+
+def rule_R6(text, log, names=()):
+    """Float arithmetic/comparison `x OP y` between the named float variables -> `verif_f64_<op>(x, y)` (uninterpreted
+    models; the operator actually present in the source picks the model, so a changed operator is a changed contract
+    term, not a lost anchor).  A name given as `*f` is emitted dereferenced."""
+    emit = {}
+    for n in names:
+        emit[n.lstrip('*')] = n
+    toks = lex(text)
+    edits = []
+    for k in range(len(toks) - 2):
+        a, o, b = toks[k], toks[k + 1], toks[k + 2]
+        if a.kind == 'ident' and b.kind == 'ident' and a.text in emit and b.text in emit and o.text in F64_OPS:
+            if k > 0 and toks[k - 1].text in ('.', '::'):
+                continue
+            if k + 3 < len(toks) and toks[k + 3].text in ('.', '(', '::'):
+                continue
+            new = 'verif_f64_%s(%s, %s)' % (F64_OPS[o.text], emit[a.text], emit[b.text])
+            edits.append(Edit(a.start, b.end, new, 'R6', ''))
+            log.append(('R6', text[a.start:b.end], new))
+    return apply_edits(text, edits)
+
+
+RULES = {'R6': rule_R6, 'R1T': rule_R1T, 'RV': rule_RV, 'R0': rule_R0, 'R1': rule_R1, 'R3': rule_R3, 'R4': rule_R4}
 
 
 def expand_make_fn(text):
@@ -579,9 +604,25 @@ def process_extract(header, directives, ctx):
                 text = RULES[rm.group(1)](text, log, [x.strip() for x in rm.group(2).split(',') if x.strip()])
             else:
                 text = RULES[rm.group(1)](text, log)
+        elif d[0] == 'arm_rebind':
+            head, names = d[1]
+            tk = lex(text)
+            pat = [t.text for t in lex(head)]
+            hits = find_seq(tk, pat)
+            if len(hits) != 1 or tk[hits[0] + len(pat)].text != '{':
+                raise Undecided('arm_rebind: arm %r not found exactly once with a block body' % head)
+            b = tk[hits[0] + len(pat)]
+            ins = ' ' + ' '.join('let %s = *%s;' % (n, n) for n in names)
+            text = text[:b.end] + ins + text[b.end:]
+            log.append(('R3', 'by-value binders %s of arm %s' % (','.join(names), head), ins.strip()))
         elif d[0] == 'subst':
-            old, new, all_ = d[1]
-            text, n = tok_replace(text, old, new, all_)
+            old, new, all_, optional = d[1]
+            try:
+                text, n = tok_replace(text, old, new, all_)
+            except Undecided:
+                if optional:
+                    continue
+                raise
             kindlbl = 'insert-only' if is_insert_only(old, new) else 'rewrite'
             log.append(('subst/' + kindlbl, old, new))
     for d in directives:
@@ -823,20 +864,24 @@ def _assemble(unit_path, apply_mutant, vacuity, hooks, mutant_post):
                 elif c2 in ('before', 'after'):
                     mm = re.match(r'("(?:[^"\\]|\\.)*")(?:\s+nth\s+(\d+))?\s*(.*)$', r2)
                     directives.append((c2, (unquote(mm.group(1)), heredoc if heredoc is not None else mm.group(3), int(mm.group(2)) if mm.group(2) else None)))
-                elif c2 == 'subst':
+                elif c2 in ('subst', 'subst?'):
+                    optional = c2.endswith('?')
                     all_ = False
                     if r2.startswith('all'):
                         all_ = True
                         r2 = r2[3:].strip()
                     if heredoc is not None:
                         old, _, new = heredoc.partition('//@ ===')
-                        directives.append(('subst', (old.strip(), new.strip('\n'), all_)))
+                        directives.append(('subst', (old.strip(), new.strip('\n'), all_, optional)))
                     else:
                         old, new, _ = split_arrow(r2)
-                        directives.append(('subst', (old, new, all_)))
+                        directives.append(('subst', (old, new, all_, optional)))
                 elif c2 == 'rule':
                     for r in r2.split():
                         directives.append(('rule', r))
+                elif c2 == 'arm_rebind':
+                    mm = re.match(r'("(?:[^"\\]|\\.)*")\s+(.*)$', r2)
+                    directives.append(('arm_rebind', (unquote(mm.group(1)), mm.group(2).replace(',', ' ').split())))
                 elif c2 == 'no_impl':
                     directives.append(('no_impl', None))
                 elif c2 == 'wrap':
